@@ -275,7 +275,7 @@ func (p *Policy) sanitize(r io.Reader, w io.Writer) error {
 			if !ok {
 				aa, matched := p.matchRegex(token.Data)
 				if !matched {
-					if _, ok := p.setOfElementsToSkipContent[token.Data]; ok {
+					if _, ok := p.setOfElementsToSkipContent[token.Data]; ok && !isVoidElement(token.Data) {
 						skipElementContent = true
 						skippingElementsCount++
 					}
@@ -294,8 +294,10 @@ func (p *Policy) sanitize(r io.Reader, w io.Writer) error {
 
 			if len(token.Attr) == 0 {
 				if !p.allowNoAttrs(token.Data) {
-					skipClosingTag = true
-					closingTagToSkipStack = append(closingTagToSkipStack, token.Data)
+					if !isVoidElement(token.Data) {
+						skipClosingTag = true
+						closingTagToSkipStack = append(closingTagToSkipStack, token.Data)
+					}
 					if p.addSpaces {
 						if _, err := buff.WriteString(" "); err != nil {
 							return err
@@ -1012,6 +1014,18 @@ func hasRelToken(val string, token string) bool {
 		}
 	}
 	return false
+}
+
+// isVoidElement returns true for the HTML elements that have no content and no
+// end tag, so the sanitizer must not wait for their end tag
+func isVoidElement(elementName string) bool {
+	switch elementName {
+	case "area", "base", "br", "col", "embed", "hr", "img", "input", "link",
+		"meta", "param", "source", "track", "wbr", "frame":
+		return true
+	default:
+		return false
+	}
 }
 
 // stringInSlice returns true if needle exists in haystack
